@@ -181,6 +181,14 @@ func otlParseLL(s string) (gtab.LookupList, int) {
 					if ext == 0 {
 						ext = 7
 					}
+				case "c": // GPOS 3.1 with one record: c:<glyph>:<ex>.<ey>.<xx>.<xy>
+					g, _ := strconv.Atoi(q[1])
+					a := strings.Split(q[2], ".")
+					l.Subtables = append(l.Subtables, &gtab.Gpos3_1{Cov: coverage.Table{glyph.ID(g): 0},
+						Records: []gtab.EntryExitRecord{{Entry: otlAnchor(a[0], a[1]), Exit: otlAnchor(a[2], a[3])}}})
+					if ext == 0 {
+						ext = 9
+					}
 				case "p":
 					g, _ := strconv.Atoi(q[1])
 					d, _ := strconv.Atoi(q[2])
@@ -786,6 +794,7 @@ func areaOtl(c *Ctx) {
 	otlLLOffsetFamily(c)
 	otlLLWindowFamily(c)
 	otlLLBigFamily(c)
+	otlLLCursiveFamily(c)
 	// the reader's budget: lookups + subtables <= 6000
 	for _, line := range []string{
 		"1/0/0/" + strings.TrimSuffix(strings.Repeat("n:2:1|", 5999), "|"),
@@ -1498,6 +1507,16 @@ func init() {
 			return "ok"
 		}))
 	}
+	// |encode()| = encodeLen() on the real code, for every GPOS subtable; the line carries both numbers
+	ops["otl.gpos.len"] = func(f Fields) string {
+		return canonPanic(guard(func() string {
+			st := otlGposFromFields(f)
+			if len(gtab.VerifSubtableEncode(st)) != f.Int("size") || gtab.VerifSubtableEncodeLen(st) != f.Int("declared") {
+				return "stale-case"
+			}
+			return "ok"
+		}))
+	}
 	ops["otl.gpos.read"] = func(f Fields) string {
 		return canonPanic(guard(func() string {
 			st, err := gtab.VerifReadGposSubtable(f.Hex("data"), 0, uint16(f.Int("type")))
@@ -1601,6 +1620,10 @@ func otlGenGposMark(c *Ctx, i int) {
 		recs := make([]string, n)
 		for k := range recs {
 			recs[k] = otlGenAnchor(r) + "." + otlGenAnchor(r)
+			if r.Chance(1, 3) { // entry and exit anchor identical
+				a := otlGenAnchor(r)
+				recs[k] = a + "." + a
+			}
 			if what != "regular" {
 				recs[k] = fmt.Sprintf("%d.1.2.%d", 1+k%50, 1+k%70)
 			}
@@ -1665,6 +1688,10 @@ func otlGenGposMark(c *Ctx, i int) {
 	c.Stat("gposmark.encode-outcome", outcomeClass(out))
 	if what != "count-mismatch" {
 		c.Case(Direct, "otl.gpos.rt", args, true)
+	}
+	if strings.HasPrefix(out, "ok:") {
+		x := otlGposFromFields(parseFields(args))
+		c.Case(Direct, "otl.gpos.len", fmt.Sprintf("%s size=%d declared=%d", args, len(gtab.VerifSubtableEncode(x)), gtab.VerifSubtableEncodeLen(x)), true)
 	}
 	if !strings.HasPrefix(out, "ok:") {
 		return
@@ -1779,6 +1806,10 @@ func otlGenGpos(c *Ctx, i int) {
 	c.Stat("gpos.encode-outcome", outcomeClass(out))
 	if what == "regular" || strings.HasPrefix(what, "boundary") {
 		c.Case(Direct, "otl.gpos.rt", args, true)
+	}
+	if strings.HasPrefix(out, "ok:") {
+		x := otlGposFromFields(parseFields(args))
+		c.Case(Direct, "otl.gpos.len", fmt.Sprintf("%s size=%d declared=%d", args, len(gtab.VerifSubtableEncode(x)), gtab.VerifSubtableEncodeLen(x)), true)
 	}
 	if !strings.HasPrefix(out, "ok:") {
 		return
@@ -2707,6 +2738,22 @@ func otlLLBigFamily(c *Ctx) {
 			ll, _ := otlParseLL(line)
 			b := gtab.VerifEncodeLookupList(ll)
 			c.Case(Direct, "otl.ll.prop", fmt.Sprintf("ll=%s ext=7 sum=%s", line, otlShowBytes(b)), true)
+		}
+	}
+}
+
+// otlLLCursiveFamily: GPOS 3.1 subtables (entry = exit, entry /= exit, one of them empty) followed by
+// further subtables and lookups: everything behind them must still be found (D on the real code only:
+// the case-line grammar of the model has no cursive subtable)
+func otlLLCursiveFamily(c *Ctx) {
+	for _, a := range []string{"100.200.100.200", "100.200.300.400", "0.0.5.6", "5.6.0.0", "65535.1.65535.1", "0.0.0.0"} {
+		for _, line := range []string{
+			fmt.Sprintf("3/0/0/c:7:%s;1/0/0/p:9:5", a),
+			fmt.Sprintf("3/0/0/c:7:%s|c:8:%s;1/16/2/p:9:5;3/0/0/c:4:%s", a, a, a),
+			fmt.Sprintf("1/0/0/p:9:5;3/0/0/c:7:%s|n:10:3;2/0/0/n:6:1", a),
+		} {
+			o := c.Case(Direct, "otl.ll.rt", "ll="+line+" refuse=no", true)
+			c.Stat("ll.cursive", outcomeClass(o))
 		}
 	}
 }
